@@ -643,3 +643,91 @@ func (b *Builder) String(t *Term) string {
 	p := b.NewPrinter()
 	return p.str(t, false)
 }
+
+// Subst replaces bound variables (by name) in t.
+func (b *Builder) Subst(t *Term, m map[string]*Term) *Term {
+	memo := map[int]*Term{}
+	var rec func(t *Term) *Term
+	rec = func(t *Term) *Term {
+		if !t.Bound {
+			return t
+		}
+		if r, ok := memo[t.ID]; ok {
+			return r
+		}
+		var out *Term
+		switch {
+		case t.Lit == "bound":
+			if r, ok := m[t.Op]; ok {
+				out = r
+			} else {
+				out = t
+			}
+		case t.Op == "q":
+			body := rec(t.Args[0])
+			var vars []*Term
+			for _, qv := range t.QVars {
+				fs := strings.SplitN(strings.Trim(qv, "()"), " ", 2)
+				vars = append(vars, b.BoundVar(fs[0], fs[1]))
+			}
+			var pats []*Term
+			for _, p := range t.Pat {
+				pats = append(pats, rec(p))
+			}
+			out = b.Quant(t.QKind, vars, body, pats...)
+		default:
+			args := make([]*Term, len(t.Args))
+			changed := false
+			for i, a := range t.Args {
+				args[i] = rec(a)
+				if args[i] != a {
+					changed = true
+				}
+			}
+			if !changed {
+				out = t
+			} else {
+				out = b.Rebuild(t, args)
+			}
+		}
+		memo[t.ID] = out
+		return out
+	}
+	return rec(t)
+}
+
+// Rebuild re-applies t's operator to new arguments (with simplification).
+func (b *Builder) Rebuild(t *Term, args []*Term) *Term {
+	switch t.Op {
+	case "and":
+		return b.And(args...)
+	case "or":
+		return b.Or(args...)
+	case "not":
+		return b.Not(args[0])
+	case "=>":
+		return b.Implies(args[0], args[1])
+	case "ite":
+		return b.Ite(args[0], args[1], args[2])
+	case "=":
+		return b.Eq(args[0], args[1])
+	case "+":
+		if len(args) == 2 {
+			return b.Add(args[0], args[1])
+		}
+	case "*":
+		if len(args) == 2 {
+			return b.Mul(args[0], args[1])
+		}
+	case "-":
+		if len(args) == 2 {
+			return b.Sub(args[0], args[1])
+		}
+		if len(args) == 1 {
+			return b.Neg(args[0])
+		}
+	case "<", "<=", ">", ">=":
+		return b.Cmp(t.Op, args[0], args[1])
+	}
+	return b.mk(&Term{Op: t.Op, Sort: t.Sort, Args: args, Lit: t.Lit})
+}
